@@ -16,6 +16,7 @@ type StoreCfg struct {
 	MergeInterval int  `json:",omitempty"`
 	NoMerged      bool `json:",omitempty"`
 	TreeDump      int  `json:",omitempty"`
+	FlushInterval int  `json:",omitempty"`
 }
 
 // cornerConfigs are always included.
